@@ -18,7 +18,7 @@ FARM_TARGET = os.path.join(WORK, "target-farm")
 
 MAIN_TEMPLATE = r'''#![allow(warnings)]
 use std::io::{BufRead, Write};
-pub mod scalars { pub type Date = String; pub type DateTime = String; pub type JSON = serde_json::Value; }
+pub mod scalars { pub type Date = String; pub type DateTime = String; pub type date_time = String; pub type JSON = serde_json::Value; }
 %(mods)s
 fn dispatch(case: &str, module: &str, what: &str, arg: serde_json::Value) -> Result<String, String> {
     match case {
